@@ -347,11 +347,16 @@ class MultiSchemaPool(pool_mod.FixedPool):
                 f"failed to sync compiler server state: "
                 f"{type(ex).__name__}({ex})"
             ) from ex
+        # Take the client's state as of this very request, before anything is
+        # awaited: by the time the workers are ready and one is available,
+        # later requests of the same client may have synced newer state.
+        client_schema = self._clients[client_id]
+        await self._ready_evt.wait()
         worker = await self._acquire_worker(
             weighter=functools.partial(self._weighter, client_id)
         )
         try:
-            diff = client_schema = self._clients[client_id]
+            diff = client_schema
             cache = worker.get_client_schema(client_id)
             extra_args = ()
             if cache is client_schema:
@@ -459,17 +464,20 @@ class MultiSchemaPool(pool_mod.FixedPool):
                 raise AssertionError("message signature verification failed")
 
             method_name, args = pickle.loads(msg)
-            if method_name != "__init_server__":
-                await self._ready_evt.wait()
-            if method_name == "__init_server__":
-                await self._init_server(client_id, *args)
-                pickled = pickle.dumps((0, None), -1)
-            elif method_name in {
+            is_client_call = method_name in {
                 "compile",
                 "compile_notebook",
                 "compile_graphql",
                 "compile_sql",
-            }:
+            }
+            if method_name != "__init_server__" and not is_client_call:
+                # (_call_for_client() waits itself, after it has applied the
+                # state sent along in the order the requests arrived)
+                await self._ready_evt.wait()
+            if method_name == "__init_server__":
+                await self._init_server(client_id, *args)
+                pickled = pickle.dumps((0, None), -1)
+            elif is_client_call:
                 pickled = await self._call_for_client(
                     client_id, method_name, args, msg
                 )
